@@ -1,4 +1,5 @@
 import Gtree.Model.Api
+import Gtree.Model.Json
 /-
   Text codec of the line protocol between the Go harness and the model driver.
   Not part of the model proper: hex encoding of byte strings, lists, trees, file systems,
@@ -56,6 +57,23 @@ partial def parseTree : List Char → Option (T × List Char)
       | some (ks, r) => some (.mk n ks, r)
       | none => none
   | _ => none
+
+/-- a name as a sequence of Unicode scalar values, if it is valid UTF-8 -/
+def charsOf (b : Bytes) : Option (List Char) :=
+  (String.fromUTF8? (ByteArray.mk b.toArray)).map String.toList
+
+/-- the formatted tree over scalar values (none: some name is not valid UTF-8) -/
+partial def ctOf : FNode → Option Json.CT
+  | .mk v ks => do
+    let v ← charsOf v
+    let ks ← ks.mapM ctOf
+    pure (.mk v ks)
+
+/-- the JSON text of a forest as bytes, in hex -/
+def jsonOf (fs : List FNode) : String :=
+  match fs.mapM ctOf with
+  | none => "invalid-utf8"
+  | some cts => hexOf (String.ofList (Json.encodeRoots cts)).toUTF8.toList
 
 def treeOf (s : String) : Option T :=
   match parseTree s.toList with
